@@ -85,7 +85,7 @@ func mergeLattice(c *Ctx, engine, key string, res poolprice.Result, wall time.Du
 	} else {
 		cv["rule"] = res.Rule
 	}
-	extra := map[string]interface{}{"evaluations": res.Evaluations, "distinct_nontrivial": res.DistinctNontrivial, "exhaustive": res.Exhaustive, "wall_s": wall.Seconds(), "violating_signatures": len(res.Violations)}
+	extra := map[string]interface{}{"evaluations": res.Evaluations, "distinct_nontrivial": res.DistinctNontrivial, "exhaustive": res.Exhaustive, "wall_s": wall.Seconds(), "violating_signatures": len(res.Violations), "rule": res.Rule}
 	for k, v := range res.Extra {
 		extra[k] = v
 	}
